@@ -1,12 +1,13 @@
 package durablestream
 
 import (
+	"context"
 	"reflect"
 
 	eventbus "github.com/jilio/ebu"
 )
 
-//verif:entry property=C13 tier=both bounds="bus on the durable-streams store (real client library over the model server): K publishes, the server answers one chosen append request with 503 (or none); delivery unaffected, that failure reported exactly once, the rejected event not in the log, the others in order" cover="rejected,all-ok" K_quick=3 K_thorough=4
+//verif:entry property=C13 tier=both bounds="bus on the durable-streams store (real client library over the model server): K publishes (optionally each under its own context, cancelled after the publish returned), the server answers one chosen append request with 503 (or none); delivery unaffected, that failure reported exactly once, the rejected event not in the log, the others in order" cover="rejected,all-ok" K_quick=3 K_thorough=4
 func harnessC13DurableRejectedAppend() {
 	K := vParam("K", 3)
 	st, err := New(vdsServer("c13"), "s")
@@ -22,8 +23,15 @@ func harnessC13DurableRejectedAppend() {
 	failAt := vInt(-1, K-1)
 	vmDSAppends = 0
 	vmDSFailAppend = failAt
+	perRequest := vBool() // every publish under its own context, cancelled once the publish has returned
 	for i := 0; i < K; i++ {
-		eventbus.Publish(bus, evD{N: i + 1})
+		if perRequest {
+			ctx, cancel := context.WithCancel(bg)
+			eventbus.PublishContext(bus, ctx, evD{N: i + 1})
+			cancel()
+		} else {
+			eventbus.Publish(bus, evD{N: i + 1})
+		}
 	}
 	vmDSFailAppend = -1
 	vAssert(delivered == K, "all-handlers-still-run")
